@@ -51,3 +51,26 @@ Fixpoint strip_loop (fuel : nat) (body : list N) (cu : cursor) (s : list N) (las
 
 Definition strip (s : list N) : outcome (list N) :=
   strip_loop (S (length s)) s init_cursor s false.
+
+(* ---- specification vocabulary for the theorems (Lang/StripProps.v, Properties/C09strip.v) ---- *)
+
+(* what the parser sees of a token *)
+Definition tok_sig (t : token) : N * list N := (tkind t, tvalue t).
+
+(* [tight last pos out ts]: the text [out], starting at offset [pos], is exactly
+     sep lexeme sep lexeme ... sep lexeme
+   where ts are its tokens (ending with EOF at the very end of the text), none of them a comment,
+   each [tstart, tend) being the offsets of its lexeme, and each sep is the separator that the rule
+   of strip_ignored_characters asks for: one SPACE between two non-punctuators or between a
+   non-punctuator and a spread, nothing otherwise ([last] = the token before the first one was a
+   non-punctuator).  In particular no ignored character occurs outside the lexemes except these
+   single spaces, and none before the first or after the last token. *)
+Inductive tight : bool -> nat -> list N -> list token -> Prop :=
+| tight_eof last pos tk :
+    (tkind tk =? K_EOF) = true -> tstart tk = pos -> tend tk = pos -> tight last pos [] [tk]
+| tight_tok last pos lx rest tk ts :
+    (tkind tk =? K_EOF) = false -> (tkind tk =? K_COMMENT) = false ->
+    tstart tk = (pos + length (sep_before last (tkind tk)))%nat ->
+    tend tk = (tstart tk + length lx)%nat -> (1 <= length lx)%nat ->
+    tight (negb (is_punct_kind (tkind tk))) (tend tk) rest ts ->
+    tight last pos (sep_before last (tkind tk) ++ lx ++ rest) (tk :: ts).
